@@ -17,7 +17,7 @@ RULE = ("argument tuples with pairwise squared-mass ratios in [1e-6,1e6]; modes:
         "scale factor; difference quotients (FPZ, FSZ, FCWl, FCWu, FCWd) only at exactly equal mass scales or >= 1e-3 apart; "
         "FCWu/FCWd/f_CSu/f_CSd on physical quark-mass combinations (PDG values +-20 %) with m_H+ in [50,5000] GeV incl. the "
         "thresholds m_H+ = m_u +- m_d. Non-trivial = tuple selecting a non-generic branch (near-degenerate pair/triple, "
-        "argument near 1, zero argument, Kaellen function within 1e-6 of zero, tiny ratio).")
+        "argument near 1, zero argument, Kaellen function within 1e-6 of zero, tiny ratio, all arguments at an end of the domain).")
 ASSUMPTIONS = [
     "reference: mpmath evaluation (100 digits) of the definitions in /repo/math/ffunctions.m and the cited papers; "
     "literal difference quotients, derivative limit at exact equality; self-tested against /repo/test/data",
@@ -70,7 +70,7 @@ def near(draw, x, lo=-12.0, hi=-1.0):
 @st.composite
 def ratio_tuple(draw, n):
     """n positive numbers with pairwise ratios in [1e-6, 1e6] and structured degeneracies"""
-    mode = draw(st.sampled_from(["generic", "generic", "pair", "triple", "near1", "two-near1", "equal", "perm1", "hier"]))
+    mode = draw(st.sampled_from(["generic", "generic", "pair", "triple", "near1", "two-near1", "equal", "perm1", "hier", "corner"]))
     base = draw(logu(1e-3, 1e3))
     xs = [base * draw(logu(1e-3, 1e3)) for _ in range(n)]
     if mode == "pair" and n >= 2:
@@ -91,6 +91,14 @@ def ratio_tuple(draw, n):
             xs = [1.0 if i < k else x for i, x in enumerate(xs)]
     elif mode == "perm1":
         xs[0] = 1.0
+    elif mode == "corner":
+        # all arguments in the lowest or highest two decades of the domain (absolute "nearly equal" tests misfire there)
+        if draw(st.booleans()):
+            xs = [1e-6 * draw(logu(1.0, 1e2)) for _ in range(n)]
+        else:
+            xs = [1e6 / draw(logu(1.0, 1e2)) for _ in range(n)]
+        if n >= 2 and draw(st.booleans()):
+            xs[1] = xs[0] * (1.0 + draw(sign()) * 10.0 ** draw(st.floats(-6.0, -0.5)))
     elif mode == "hier" and n >= 3:
         # doubly hierarchical: two arguments far below the third, moderately separated from each other
         big = base * draw(logu(1.0, 1e3))
@@ -320,12 +328,18 @@ def kallen_rel(args):
 
 def known_match(entry, case, fail):
     m = entry.get("match", {})
-    if case.get("f") in m.get("functions", []) and "u_max" in m and len(case["args"]) == 3:
-        x, y, z = sorted(case["args"])
-        if z <= 0:
-            return False
-        u, v = x / z, y / z
-        return u < m["u_max"] and v < 1 and u / (1 - v) ** 2 > m["u_over_a2_min"]
+    if case.get("f") in m.get("functions", []) and "u_max" in m:
+        # Phi itself, or a charged Barr-Zee function whose inner Phi(xd, xu, 1) lies in the faulty region
+        a = case["args"]
+        triples = [a] if len(a) == 3 else [[a[0], a[1], 1.0]] + ([[a[2], a[3], 1.0]] if len(a) == 6 else [])
+        for t in triples:
+            x, y, z = sorted(t)
+            if z <= 0:
+                continue
+            u, v = x / z, y / z
+            if u < m["u_max"] and v < 1 and u / (1 - v) ** 2 > m["u_over_a2_min"]:
+                return True
+        return False
     if case.get("f") in m.get("functions", []) and "lambda2_rel_max" in m:
         a = case["args"]
         rels = [kallen_rel(a)]
